@@ -77,7 +77,8 @@ SCHED_CORPUS = [
 
 def _gen_sched(rng):
     """driver side: rings whose delays are split over several delay adapters per link"""
-    case = sc.gen_ring(rng, sufficient=True) if rng.random() < 0.6 else sc.gen_ring_staggered(rng)
+    r = rng.random()
+    case = sc.gen_ring(rng, sufficient=True) if r < 0.5 else (sc.gen_ring_staggered(rng) if r < 0.75 else sc.gen_pull_ring(rng))
     return {"sched": case}
 
 
